@@ -1,5 +1,7 @@
 """C01 generator: 1-3 direct/reject rules per resource over the three statistic regimes, batches 0..k,
 arrival gaps on bucket/window edges, exits in any order."""
+import importlib.util as _ilu, os as _os
+_ms = _ilu.spec_from_file_location("worldmix", _os.path.join(_os.path.dirname(__file__), "worldmix.py")); MIX = _ilu.module_from_spec(_ms); _ms.loader.exec_module(MIX)
 import importlib.util, os
 _s = importlib.util.spec_from_file_location("worldgen", os.path.join(os.path.dirname(__file__), "worldgen.py")); W = importlib.util.module_from_spec(_s); _s.loader.exec_module(W)
 
@@ -57,6 +59,12 @@ def gen_case(rng):
     return ops
 
 
-def gen(rng, tier):
+def gen_own(rng, tier):
     n = 500 if tier == "quick" else 25000
     return [gen_case(rng) for _ in range(n)]
+
+
+def gen(rng, tier):
+    """the property's own streams, with every 8th case taken from the shared mixed-world stream (gen/worldmix.py)"""
+    cases = gen_own(rng, tier)
+    return [c if i % 8 != 7 else MIX.gen_mix(rng) for i, c in enumerate(cases)]
